@@ -1048,7 +1048,7 @@ def write(members: list[dict], layout: dict | None = None, password: str | None 
     return (blob, tk.t) if want_tokens else blob
 
 
-def seal(body: bytes, header: bytes, L: dict | None = None, password: str | None = None) -> bytes:
+def seal(body: bytes, header: bytes, L: dict | None = None, password: str | None = None, outer_edit=None) -> bytes:
     """body (everything between the signature header and the header) + raw header bytes -> archive,
     encoding the header as the layout says and computing all outer CRCs."""
     LL = dict(DEFAULT_LAYOUT)
@@ -1076,7 +1076,7 @@ def seal(body: bytes, header: bytes, L: dict | None = None, password: str | None
         hl = dict(L)
         hl.update(crc="folder" if L["header_crc"] else "none", numunpack_omit=True, pack_crc=False)
         tk = _streams_tokens(hf, hl, packpos, "EncodedHeader", K_ENCODEDHEADER, substreams=False)
-        header = assemble(tk.t)
+        header = assemble(outer_edit(tk.t) if outer_edit else tk.t)  # (outer_edit: token-level mutation of the streams info that describes the packed header)
     nh_ofs = len(body)
     tail = struct.pack("<QQL", nh_ofs, len(header), crc32(header))
     sig = MAGIC + bytes([0, L["minor"]]) + struct.pack("<L", crc32(tail)) + tail
